@@ -99,6 +99,40 @@ pub fn strategy() -> impl Strategy<Value = Case> {
         })
 }
 
+/// A history around one very wide run (hundreds of targets x 3 commands: a result document of
+/// more than 100 KB and thousands of log files).
+pub fn wide_cases(thorough: bool) -> Vec<Case> {
+    let small = |t: &str, lines: usize| RunSpec {
+        commands: vec![CMDS[0].to_string()],
+        targets: vec![t.to_string()],
+        fail: None,
+        quiet_err: vec![],
+        quiet_out: vec![],
+        lines,
+        abort: 0,
+        nothing_to_do: 0,
+    };
+    let wide = RunSpec {
+        commands: CMDS.iter().map(|s| s.to_string()).collect(),
+        targets: vec![],
+        fail: None,
+        quiet_err: vec![],
+        quiet_out: vec![],
+        lines: 1,
+        abort: 0,
+        nothing_to_do: 0,
+    };
+    let sizes: &[usize] = if thorough { &[350, 900] } else { &[350] };
+    sizes
+        .iter()
+        .map(|&n| Case {
+            max_retained: 2,
+            ntargets: n,
+            runs: vec![small("t1", 2), wide.clone(), small("t0", 1), small("t2", 3)],
+        })
+        .collect()
+}
+
 type Logs = BTreeSet<LogBlock>;
 
 fn show_logs(env: &mut Env, id: Option<&str>) -> Result<Result<Logs, String>, CheckError> {
@@ -427,6 +461,7 @@ non-trivial = history longer than M in which two runs sharing an id differ in th
     ];
     let n = ctx.n(150, 3000);
     ctx.drive("history", strategy, n, check);
+    ctx.drive_all("wide-run", wide_cases(ctx.thorough()), "a history with one run over 350 (thorough: 900) targets x 3 commands between small runs", check);
 }
 
 pub fn replay(ctx: &Ctx, label: &str, case: Value) -> Result<(), String> {
